@@ -1,15 +1,222 @@
 /-
   C12 — TFM-PVALUE p-value ranges are consistent with the exact score distribution.
-  (theorems under construction)
+
+  Exact instance (`Rat`) of the mirror model LMV.Model.Tfm (the code with the four `fix:` commits).
+  `tail bg rows x` is P(S ≥ x) for the exact score S of a background-distributed word.  Shared
+  lemmas (R) `rounding` and (D) `distribution_spec` are in LMV.Lemmas.Tfm.
 -/
-import LMV.Model.Tfm
+import LMV.Lemmas.Tfm
 
 namespace LMV
 namespace C12
 open Tfm
 
-/-- the first granularity of the exact instance is 1/10 -/
-theorem tenth_rat : (Num.tenth : Rat) = 1 / 10 := rfl
+/-- `P(S ≥ x)`: the exact tail of the score of a background-distributed word -/
+def tail (bg : List Rat) (rows : List (List Rat)) (x : Rat) : Rat :=
+  expect bg rows (fun s => if x ≤ s then 1 else 0)
+
+/-- total mass of all words (1 for a background that sums to 1) -/
+def totalMass (bg : List Rat) (rows : List (List Rat)) : Rat := expect bg rows (fun _ => 1)
+
+theorem tail_antitone {bg : List Rat} (hbg : ∀ b ∈ bg, 0 ≤ b) (rows : List (List Rat)) {x y : Rat}
+    (h : x ≤ y) : tail bg rows y ≤ tail bg rows x := by
+  apply expect_mono hbg
+  intro s
+  by_cases hy : y ≤ s
+  · simp [hy, le_trans h hy]
+  · by_cases hx : x ≤ s <;> simp [hy, hx]
+
+theorem tail_le_total {bg : List Rat} (hbg : ∀ b ∈ bg, 0 ≤ b) (rows : List (List Rat)) (x : Rat) :
+    tail bg rows x ≤ totalMass bg rows := by
+  apply expect_mono hbg
+  intro s
+  by_cases hx : x ≤ s <;> simp [hx]
+
+theorem tail_nonneg {bg : List Rat} (hbg : ∀ b ∈ bg, 0 ≤ b) (rows : List (List Rat)) (x : Rat) :
+    0 ≤ tail bg rows x := by
+  have := expect_mono hbg rows (f := fun _ => 0) (h := fun s => if x ≤ s then 1 else 0)
+    (by intro s; by_cases hx : x ≤ s <;> simp [hx])
+  rwa [expect_zero] at this
+
+/-! ### the two look-ups inside `lookup_pvalue` -/
+
+/-- the least key `≥ avg` of an ascending key list selects the same entries as `avg` itself -/
+theorem firstGe_spec {q : List (Int × Rat)} (hq : q.Pairwise (fun a b => a.1 ≤ b.1))
+    (avg d : Int) (hd : avg ≤ d) :
+    avg ≤ q.foldr (fun e s => if avg ≤ e.1 then e.1 else s) d ∧
+      ∀ e ∈ q, (q.foldr (fun e s => if avg ≤ e.1 then e.1 else s) d ≤ e.1 ↔ avg ≤ e.1) := by
+  induction q with
+  | nil => simp [hd]
+  | cons e0 t ih =>
+    rw [List.pairwise_cons] at hq
+    obtain ⟨i1, i2⟩ := ih hq.2
+    simp only [List.foldr_cons]
+    by_cases h : avg ≤ e0.1
+    · rw [if_pos h]
+      refine ⟨h, ?_⟩
+      intro e he
+      rcases List.mem_cons.1 he with he | he
+      · subst he; simp [h]
+      · have := hq.1 e he
+        constructor <;> intro <;> omega
+    · rw [if_neg h]
+      refine ⟨i1, ?_⟩
+      intro e he
+      rcases List.mem_cons.1 he with he | he
+      · subst he
+        constructor <;> intro <;> omega
+      · exact i2 e he
+
+theorem walkDown_mem (thr : Rat) (l : List Int) (d : Int) :
+    walkDown thr l d = d ∨ walkDown thr l d ∈ l := by
+  induction l with
+  | nil => simp [walkDown]
+  | cons k t ih =>
+    cases t with
+    | nil => simp [walkDown]
+    | cons k' t' =>
+      unfold walkDown
+      split
+      · rcases ih with ih | ih
+        · exact Or.inl ih
+        · exact Or.inr (List.mem_cons_of_mem _ ih)
+      · exact Or.inr List.mem_cons_self
+
+/-! ### one refinement step -/
+
+/-- **C12, one step, sharp form.**  For every matrix (rows in any order), every non-negative
+    background, every granularity `g > 0` and every score `s`, with `E = error_max`:
+    `P(S ≥ s+(E+1)g) ≤ pmin ≤ pmax ≤ P(S ≥ s-(E+2)g)`. -/
+theorem lookupPvalue_spec {bg : List Rat} (hbg : ∀ b ∈ bg, 0 ≤ b) (rows : List (List Rat))
+    (hne : rows ≠ []) {g : Rat} (hg : 0 < g) (s : Rat) :
+    tail bg rows (s + (errorMax g rows + 1) * g) ≤ (lookupPvalue (recompute rows g) bg s).1 ∧
+      (lookupPvalue (recompute rows g) bg s).1 ≤ (lookupPvalue (recompute rows g) bg s).2 ∧
+      (lookupPvalue (recompute rows g) bg s).2 ≤ tail bg rows (s - (errorMax g rows + 2) * g) := by
+  -- the window
+  obtain ⟨hE0, _⟩ := errorMax_bounds g rows
+  set rc := recompute rows g with hrc
+  have hEq : rc.errorMax = errorMax g rows := rfl
+  set E := errorMax g rows with hE
+  set X : Rat := s / g + ((rc.offsets.sum : Int) : Rat) with hX
+  have hgg : rc.g = g := rfl
+  have hwin : pvalueWindow rc s = (⌊X⌋, ⌊X - E - 1⌋, ⌊X + E + 1⌋) := by
+    simp [pvalueWindow, hX, hEq, hgg]
+  have hmin_avg : ⌊X - E - 1⌋ ≤ ⌊X⌋ := Int.floor_le_floor (by linarith)
+  have havg_max : ⌊X⌋ ≤ ⌊X + E + 1⌋ := Int.floor_le_floor (by linarith)
+  set avg := ⌊X⌋ with havg
+  set mn := ⌊X - E - 1⌋ with hmn
+  set mx := ⌊X + E + 1⌋ with hmx
+  -- the map
+  set Q := distribution rc.im bg mn mx with hQ
+  have him : NonnegRows rc.im := nonneg_im g rows
+  have hne' : rc.im ≠ [] := by
+    simp only [hrc, recompute]
+    intro h; exact hne (List.map_eq_nil_iff.1 h)
+  have hQall := distribution_forall hbg him (min := mn) (max := mx) (by omega)
+  have hQsorted : Q.Pairwise (fun a b => a.1 ≤ b.1) := by
+    rw [hQ]; unfold distribution
+    split
+    · exact List.Pairwise.nil
+    · exact pairwise_normalize _
+  -- the two keys
+  set s' := Q.foldr (fun e s => if avg ≤ e.1 then e.1 else s) (mx + 1) with hs'
+  obtain ⟨hs'1, hs'2⟩ := firstGe_spec hQsorted avg (mx + 1) (by omega)
+  rw [← hs'] at hs'1 hs'2
+  set below := (Q.filter (fun e => decide (e.1 ≤ s'))).map (·.1) with hbelow
+  set kmax := walkDown (Num.ofInt s' - rc.errorMax) below.reverse s' with hkmax
+  have hlk : lookupPvalue rc bg s = (tailFrom Q s', tailFrom Q kmax) := by
+    simp only [lookupPvalue, hwin]
+    rfl
+  have hkmax_le : kmax ≤ s' := by
+    rcases walkDown_mem (Num.ofInt s' - rc.errorMax) below.reverse s' with h | h
+    · rw [hkmax, h]
+    · rw [← hkmax] at h
+      rw [List.mem_reverse, hbelow, List.mem_map] at h
+      obtain ⟨e, he, h⟩ := h
+      rw [← h]
+      simpa using (List.mem_filter.1 he).2
+  rw [hlk]
+  simp only
+  -- pmin = P(D ≥ avg)
+  have hpmin : tailFrom Q s' = expect bg rc.im (fun k => if avg ≤ k then 1 else 0) := by
+    rw [tailFrom_eq, ← distribution_spec bg him hne' (min := mn) (max := mx)]
+    · apply wsum_congr
+      intro e he
+      by_cases h : avg ≤ e.1
+      · simp [h, (hs'2 e he).2 h]
+      · have : ¬ s' ≤ e.1 := fun h' => h ((hs'2 e he).1 h')
+        simp [h, this]
+    · constructor
+      · intro k hk; simp; omega
+      · intro k hk
+        have h1 : avg ≤ k := by omega
+        have h2 : avg ≤ mx + 1 := by omega
+        simp [h1, h2]
+  -- everything in the map is P(D ≥ min)
+  have hall : wsum Q (fun _ => 1) = expect bg rc.im (fun k => if mn ≤ k then 1 else 0) := by
+    rw [← distribution_spec bg him hne' (min := mn) (max := mx)]
+    · apply wsum_congr
+      intro e he
+      simp [(hQall e he).1]
+    · constructor
+      · intro k hk; simp; omega
+      · intro k hk
+        have h1 : mn ≤ k := by omega
+        have h2 : mn ≤ mx + 1 := by omega
+        simp [h1, h2]
+  refine ⟨?_, ?_, ?_⟩
+  · -- lower bound through the coupling and (R)
+    rw [hpmin, ← expect_pair_snd bg g rows, tail, ← expect_pair_fst bg g rows]
+    apply expect_mono_reach hbg
+    rintro ⟨S, D⟩ hreach
+    obtain ⟨_, r2⟩ := rounding g rows hreach
+    by_cases hS : s + (E + 1) * g ≤ S
+    · have h1 : s / g + (E + 1) ≤ S / g := by
+        rw [← sub_nonneg] at hS ⊢
+        have : S / g - (s / g + (E + 1)) = (S - (s + (E + 1) * g)) / g := by
+          field_simp
+        rw [this]; exact div_nonneg hS (le_of_lt hg)
+      have h2 : X < (D : Rat) := by
+        rw [hX]; linarith
+      have h3 : avg ≤ D := by
+        have := Int.floor_le X
+        have h4 : ((avg : Int) : Rat) < (D : Rat) := lt_of_le_of_lt this h2
+        exact le_of_lt (by exact_mod_cast h4)
+      simp [hS, h3]
+    · simp only [hS, if_false]
+      by_cases h3 : avg ≤ D <;> simp [h3]
+  · -- pmin ≤ pmax
+    rw [tailFrom_eq, tailFrom_eq]
+    apply wsum_mono (fun e he => (hQall e he).2)
+    intro e _
+    by_cases h : s' ≤ e.1
+    · have : kmax ≤ e.1 := le_trans hkmax_le h
+      simp [h, this]
+    · by_cases h' : kmax ≤ e.1 <;> simp [h, h']
+  · -- upper bound
+    have h1 : tailFrom Q kmax ≤ wsum Q (fun _ => 1) := by
+      rw [tailFrom_eq]
+      apply wsum_mono (fun e he => (hQall e he).2)
+      intro e _
+      by_cases h' : kmax ≤ e.1 <;> simp [h']
+    refine le_trans h1 ?_
+    rw [hall, ← expect_pair_snd bg g rows, tail, ← expect_pair_fst bg g rows]
+    apply expect_mono_reach hbg
+    rintro ⟨S, D⟩ hreach
+    obtain ⟨r1, _⟩ := rounding g rows hreach
+    by_cases hD : mn ≤ D
+    · have h2 : X - E - 1 < (mn : Rat) + 1 := Int.lt_floor_add_one _
+      have h3 : ((mn : Int) : Rat) ≤ (D : Rat) := by exact_mod_cast hD
+      have h4 : s / g - (E + 2) < S / g := by
+        rw [hX] at h2; linarith
+      have h5 : s - (E + 2) * g ≤ S := by
+        have : (s - (E + 2) * g) / g < S / g := by
+          have : (s - (E + 2) * g) / g = s / g - (E + 2) := by field_simp
+          rw [this]; exact h4
+        exact le_of_lt ((div_lt_div_iff_of_pos_right hg).1 this)
+      simp [hD, h5]
+    · simp only [hD, if_false]
+      by_cases h5 : s - (E + 2) * g ≤ S <;> simp [h5]
 
 end C12
 end LMV
